@@ -155,6 +155,7 @@ ExercisedDist(r) ==
         nonzero_setpoint |-> B2N(\E g \in 1..Len(o.d) : \E j \in 1..Len(o.d[g]) : Abs(o.d[g][j]) > Tol),
         multi_inverter |-> B2N(\E g \in 1..Len(i.groups) : Len(i.groups[g].invs) > 1),
         multi_battery |-> B2N(\E g \in 1..Len(i.groups) : Len(i.groups[g].bats) > 1),
+        third_inverter_powered |-> B2N(\E g \in 1..Len(o.d) : Len(o.d[g]) >= 3 /\ Abs(o.d[g][3]) > Tol),
         at_excl |-> B2N(i.power \in {a.el, a.eu}),
         at_incl |-> B2N(i.power \in {a.il, a.iu}),
         beyond_incl |-> B2N(i.power > a.iu \/ i.power < a.il),
